@@ -130,10 +130,14 @@ const (
 	// transaction watcher of database/sql gets to roll back before the handler continues
 	// (the window "cancelled between the last statement and the commit")
 	FaultCancelAfter
+	// FaultCancelAtCommit: the client cancels at the first COMMIT at or after event k, after
+	// database/sql's own context check: the commit goes through, whatever runs after it (commit
+	// hooks, the handler's epilogue) runs under a cancelled context
+	FaultCancelAtCommit
 )
 
 func (k FaultKind) String() string {
-	return [...]string{"none", "sql_stmt_err", "commit_err", "ctx_cancel", "conn_loss", "stall", "ctx_cancel_after_stmt"}[k]
+	return [...]string{"none", "sql_stmt_err", "commit_err", "ctx_cancel", "conn_loss", "stall", "ctx_cancel_after_stmt", "ctx_cancel_at_commit"}[k]
 }
 
 var errInjected = errors.New("simulated storage failure")
@@ -241,6 +245,14 @@ func (s *Sim) event(kind byte) FaultKind {
 			s.faultFired = true
 			s.Stats["fired_"+FaultStall.String()]++
 			return FaultStall
+		}
+		return FaultNone
+	}
+	if s.faultKind == FaultCancelAtCommit {
+		if !s.faultFired && s.evt >= s.faultAt && kind == 'c' {
+			s.faultFired = true
+			s.Stats["fired_"+FaultCancelAtCommit.String()]++
+			return FaultCancel
 		}
 		return FaultNone
 	}
